@@ -1125,7 +1125,13 @@ where
                 if self.read.remain() < 6 {
                     return perr!(self, EofWhileParsing);
                 } else {
-                    self.read.eat(5);
+                    self.read.eat(1);
+                    // the four chars after `\u` must be hex digits
+                    for _ in 0..4 {
+                        if !matches!(self.read.next(), Some(c) if c.is_ascii_hexdigit()) {
+                            return perr!(self, InvalidUnicodeCodePoint);
+                        }
+                    }
                 }
             }
             Some(c) => {
